@@ -63,6 +63,7 @@ type TableSpec struct {
 }
 
 type Specs struct {
+	Inactive []string
 	Tables  []*TableSpec
 	Funcs   map[string]*FuncSpec
 	SpecFns map[string]*SpecFn
@@ -126,6 +127,12 @@ func (sp *Specs) loadFile(path string) {
 		if !strings.HasPrefix(line, "//@") {
 			continue
 		}
+		if strings.HasPrefix(line, "//@?") {
+			// inactive clause (kept for documentation: the engine cannot discharge it yet)
+			sp.Inactive = append(sp.Inactive, fmt.Sprintf("%s:%d: %s", path, ln, strings.TrimSpace(line[4:])))
+			last = nil
+			continue
+		}
 		body := strings.TrimSpace(strings.TrimPrefix(line, "//@"))
 		if i := strings.Index(body, " // "); i >= 0 {
 			body = strings.TrimSpace(body[:i])
@@ -153,11 +160,13 @@ func (sp *Specs) loadFile(path string) {
 		switch kw {
 		case "func":
 			key := pkg + "." + rest
-			cur = &FuncSpec{Key: key, Loops: map[int]*LoopSpec{}, Where: where, Props: map[string]bool{}}
-			if _, dup := sp.Funcs[key]; dup {
-				sp.Errors = append(sp.Errors, where+": duplicate contract for "+key)
+			if old, dup := sp.Funcs[key]; dup {
+				// a second block for the same function (possibly in another file) adds clauses
+				cur = old
+			} else {
+				cur = &FuncSpec{Key: key, Loops: map[int]*LoopSpec{}, Where: where, Props: map[string]bool{}}
+				sp.Funcs[key] = cur
 			}
-			sp.Funcs[key] = cur
 			curLoop = nil
 		case "table":
 			if i := strings.Index(rest, "["); i >= 0 && len(props) == 0 {
@@ -203,8 +212,12 @@ func (sp *Specs) loadFile(path string) {
 				continue
 			}
 			n, _ := strconv.Atoi(strings.Fields(rest + " 0")[0])
-			curLoop = &LoopSpec{Ordinal: n}
-			cur.Loops[n] = curLoop
+			if old, ok := cur.Loops[n]; ok {
+				curLoop = old
+			} else {
+				curLoop = &LoopSpec{Ordinal: n}
+				cur.Loops[n] = curLoop
+			}
 		case "requires", "ensures", "invariant", "decreases":
 			if cur == nil {
 				sp.Errors = append(sp.Errors, where+": clause outside func")
@@ -783,10 +796,12 @@ func (e *specEnv) eval(x *SX) (Val, types.Type, error) {
 			return v, e.gtOf(x.Name, v), nil
 		}
 		if v, ok := e.vars[x.Name]; ok {
-			if v.Place != nil && v.T == "" {
-				return Val{}, nil, fmt.Errorf("%s is a place", x.Name)
+			if _, cell := e.vars["&"+x.Name]; !cell {
+				if v.Place != nil && v.T == "" {
+					return Val{}, nil, fmt.Errorf("%s is a place", x.Name)
+				}
+				return v, e.gtOf(x.Name, v), nil
 			}
-			return v, e.gtOf(x.Name, v), nil
 		}
 		if v, ok := e.vars["&"+x.Name]; ok {
 			// address-taken local: load its current content
